@@ -228,6 +228,12 @@ def oracle(cps, toks):
                 if ty != "Subexpression":
                     bad.append(("blank-line", "the blank line at offset %d lies in a %s token, not in a Subexpression token" % (i, ty)))
                     break
+    # ... and conversely a Subexpression token is a separator only because it holds a blank line:
+    # at least two line-break characters (LF / FF / CR as the lexer's Subexpression state counts them)
+    for i, t in enumerate(toks):
+        if t[0] == "Subexpression" and sum(1 for c in t[1] if c in (LF, FF, CR)) < 2:
+            bad.append(("blank-line", "token %d is a Subexpression token %r but holds no blank line" % (i, show(t[1]))))
+            break
     return bad
 
 
